@@ -203,3 +203,23 @@ Definition print_case (v : val) : val :=
     end
   | _ => v_bad_input
   end.
+
+(* ---- the entry of the C02 driver (coq/extract/C02.v): the first integer of a case selects the stream kind ----
+   0: Definition.invoke / NewCommand.invoke (Model/Expand.v)      1: the reference evaluator on a program
+   2: the expansion engine on a token list; when the case is the printing of a program, the reference evaluator's answer for
+      that program comes with it (the Spec oracle of the judge); out of fuel stays a top-level answer
+   3: print / in_F1 / gdef_safe / in_F2 of a program *)
+Definition engine_entry (x : val) (more : list val) : val :=
+  match Engine.run_case x with
+  | VL [VI (-3)] => v_outoffuel
+  | r => VL (r :: more)
+  end.
+Definition c02_entry (v : val) : val :=
+  match v with
+  | VL [VI 0; x] => Expand.run_expand_case x
+  | VL [VI 1; x] => MacroLang.run_prog x
+  | VL [VI 2; x] => engine_entry x []
+  | VL [VI 2; x; p] => engine_entry x [MacroLang.run_prog p]
+  | VL [VI 3; p] => print_case p
+  | _ => v_bad_input
+  end.
